@@ -564,11 +564,10 @@ func substringIndFunc(arg1, arg2 query, after bool) func(query, iterator) interf
 		case string:
 			word = v
 		case query:
-			node := v.Select(t)
-			if node == nil {
-				return ""
+			// an empty node-set is the empty string
+			if node := v.Select(t); node != nil {
+				word = node.Value()
 			}
-			word = node.Value()
 		}
 		if word == "" {
 			// Every string starts with the empty string: nothing comes
